@@ -67,6 +67,11 @@ var isTag = map[string]bool{"ExecuteWithStopTagDirect": true, "ExecuteMixModelWi
 	"ExecuteSelectedRulesWithControlAndStopTag":                  true,
 	"ExecuteSelectedRulesWithControlAndStopTagAsGivenSortedName": true}
 
+// fault snippets usable as the way a rule fails (deterministic, terminate at once)
+var failKinds = []string{"cond-notbool", "break-outside", "continue-outside", "arith-asg", "arith-if", "div-zero", "undef-var",
+	"undef-func", "undef-method", "nil-deref", "nil-deref-set", "index-read", "index-write", "store-kind", "panic-method",
+	"argcount", "not-nonbool", "cmp-if", "logic-asg", "arith-return", "panic-func-return", "arith-conc"}
+
 func randSal(r *rand.Rand, style int) int64 {
 	switch style {
 	case 0: // many ties
@@ -214,14 +219,15 @@ func genRandom(n int, fam string, seed int64, path string, target string) {
 				tpl = "B"
 			}
 			rules[j] = Rule{Name: fmt.Sprintf("r%d", j+1), Sal: randSal(r, style), Tpl: tpl}
+			if r.Intn(3) == 0 {
+				rules[j].FK = failKinds[r.Intn(len(failKinds))]
+			}
 		}
 		s := Session{ID: 1000000 + i, Target: tgt, Rules: rules}
-		nc := 1
+		// histories: a call is preceded by other calls on the same engine (state left behind by a call must not leak)
+		nc := 1 + r.Intn(2)*r.Intn(4)
 		if fam == "result" {
 			nc = 2 + r.Intn(3)
-		}
-		if nc == 1 && r.Intn(4) == 0 {
-			nc = 2 // the interesting call comes after a change of the rule set
 		}
 		cur := append([]Rule{}, rules...)
 		next := nr
